@@ -46,6 +46,7 @@ CN = lambda s: {"c": "connect", "s": s, "nohandshake": True}        # noqa: E731
 HS = lambda s: {"c": "handshake", "s": s}                           # noqa: E731
 Q = lambda s, cls="query", v=None: dict({"c": "cmd", "s": s, "cls": cls}, **({} if v is None else {"v": v}))   # noqa: E731
 D = lambda s, how="close": {"c": "disconnect", "s": s, "how": how}  # noqa: E731
+W = lambda s: {"c": "wait", "s": s}                                 # noqa: E731
 STOP = {"c": "stop"}
 DIRECTED = [
     [STOP],                                                # cancelled before anything else happened
@@ -62,6 +63,11 @@ DIRECTED = [
     [CN(0), CN(1), HS(0), HS(1), Q(0, v=0), Q(1, v=3), D(0), D(1), STOP],
     [CN(0), CN(1), HS(1), HS(0), Q(0, v=0), Q(1, v=0), Q(0, "mutate"), D(1), D(0), STOP],
     [CN(0), C(1, True), HS(0), Q(0, v=2), Q(1, v=2), D(0), D(1, "exit"), STOP],
+    # a session inside an endless wait (until-closed): the other session is served meanwhile; when its client leaves - before or
+    # after the stop - the serving task should still complete (it does not: known finding KF-L)
+    [C(0), C(1), W(0), Q(1, v=0), Q(1, "mutate"), D(1), D(0), STOP],
+    [C(0), C(1, True), W(0), Q(1, v=2), STOP, D(0), D(1, "exit")],
+    [C(0), W(0), D(0), C(1), Q(1, v=0), D(1)],             # ... and without a stop the server keeps serving others
     # every concrete query line through a raw client and through the bundled CLI client (quotes, a 12 kB reply ...)
     [C(0), C(1, True)] + [Q(s, v=v) for v in range(7) for s in (0, 1)] + [D(0), D(1, "exit"), STOP],
 ]
@@ -136,7 +142,7 @@ def run_pipeline(tier, seed, log):
         for h in v["hit"]:
             res["hits"][h] = res["hits"].get(h, 0) + 1
         for x in v["viol"]:
-            e = {"c": x["c"], "kf": "", "at": x["at"], "ent": x["ent"], "driver": "sockets"}
+            e = {"c": x["c"], "kf": x.get("kf", ""), "at": x["at"], "ent": x["ent"], "driver": "sockets"}
             if seenc.get(x["c"], 0) < 3:
                 seenc[x["c"]] = seenc.get(x["c"], 0) + 1
                 path = os.path.join(rdir, "%s-%d.json" % (x["c"], seenc[x["c"]]))
@@ -160,7 +166,13 @@ def check(pid, tier, seed, t0, finish):
     if res["harness_errors"]:
         print("MACHINERY: socket harness failed:", res["harness_errors"][0])
         return 2
-    mine = sorted(res["viol"], key=lambda x: 0 if x.get("replay") else 1)
+    import check as _check
+    kf = _check.known_findings().get(pid, {})
+    known_seen = {}
+    for x in res["viol"]:
+        if x.get("kf") and x["kf"] in kf:
+            known_seen[x["kf"]] = known_seen.get(x["kf"], 0) + 1
+    mine = sorted([x for x in res["viol"] if not (x.get("kf") and x["kf"] in kf)], key=lambda x: 0 if x.get("replay") else 1)
     cov = {"states": res["judge_states"] + sum(i["states"] for i in res["tlc"]),
            "transitions": res["judge_transitions"] + sum(i["transitions"] for i in res["tlc"]),
            "traces_validated_against_impl": res["traces"], "evaluations": res["traces"], "distinct_nontrivial": res["nontrivial"],
@@ -171,7 +183,7 @@ def check(pid, tier, seed, t0, finish):
            "exhaustive": False}
     assumptions = ["waits are bounded (%s s, VERIF_SOCK_BOUND): 'never completes' is observed as 'not within the bound'" % os.environ.get("VERIF_SOCK_BOUND", "5.0"),
                    "loopback TCP and Unix sockets of this host; CPython 3.12 asyncio.Server semantics"]
-    return finish(pid, tier, seed, "model_checking", cov, assumptions, mine, {}, t0)
+    return finish(pid, tier, seed, "model_checking", cov, assumptions, mine, known_seen, t0)
 
 
 def replay(data, path):
